@@ -81,6 +81,7 @@ type simConn struct {
 	writes    [][]byte
 	wstall    bool
 	wallow    int // writes let through while stalled (stepw)
+	wtemp     int // this many coming writes fail with a Temporary() error, 0 bytes taken
 	wfail     error
 	wfailAt   int // fail once this many bytes were written in total (-1 = never)
 	wtotal    int
@@ -164,6 +165,12 @@ func (c *simConn) Write(p []byte) (int, error) {
 	}
 	if c.closed {
 		return 0, &net.OpError{Op: "write", Net: "sim", Err: errors.New("use of closed network connection")}
+	}
+	if c.wtemp > 0 {
+		// a write the connection refuses without taking a byte, with an error that calls itself temporary
+		c.wtemp--
+		c.ev.add("writefail/%s", vHex(p))
+		return 0, vTempErr{}
 	}
 	if c.wfail != nil && c.wfailAt >= 0 && c.wtotal+len(p) > c.wfailAt {
 		n := c.wfailAt - c.wtotal
@@ -395,6 +402,13 @@ func vErrClass(err error) string {
 }
 
 type vWriteErr struct{}
+
+// vTempErr: a net.Error that calls itself temporary (EAGAIN-like)
+type vTempErr struct{}
+
+func (vTempErr) Error() string   { return "verif: injected temporary write error" }
+func (vTempErr) Temporary() bool { return true }
+func (vTempErr) Timeout() bool   { return false }
 
 func (vWriteErr) Error() string { return "verif: injected write error" }
 
@@ -899,6 +913,11 @@ func (e *vEngine) op(f []string) {
 		e.conn.mu.Lock()
 		e.conn.wfail = vWriteErr{}
 		e.conn.wfailAt = e.conn.wtotal + n
+		e.conn.mu.Unlock()
+	case "writetemp": // writetemp/<n>: the next n writes are refused whole with a temporary error
+		n, _ := strconv.Atoi(f[1])
+		e.conn.mu.Lock()
+		e.conn.wtemp = n
 		e.conn.mu.Unlock()
 	case "writeok":
 		e.conn.mu.Lock()
